@@ -150,9 +150,13 @@ def hist_cases(draw, entry, families):
         else:
             binsize = draw(st.one_of(st.sampled_from(NICE_STEPS), st.floats(0.01, 100.0),
                                      st.integers(1, 40).map(lambda k, s=span: s / k if s > 0 else 1.0)))
+        if not binsize > 0:
+            binsize = 1.0           # span/k underflowed (subnormal span): the statement needs binsize > 0
         cap = 1e5 if draw(st.integers(0, 150)) == 0 else 60.0
         if span > 0 and span / binsize > cap:
             binsize = span / draw(st.integers(1, 50))
+            if not binsize > 0:
+                binsize = 1.0
     lim_int = draw(st.booleans())
     case = {"x": enc(vals), "dtype": dt, "family": family, "binsize": binsize, "nbin": nbin,
             "min": enc(vmin), "max": enc(vmax), "min_mode": min_mode, "max_mode": max_mode,
@@ -312,9 +316,9 @@ ALL_FAM = ["decades", "pool", "intfloat", "ints", "grid", "grid", "const"]
 
 SUBCHECKS = [
     Subcheck("histogram", lambda: hist_cases("histogram", ALL_FAM), check_hist, classify_hist,
-             quick=2400, thorough=120000, shards=None),
+             quick=7200, thorough=120000, shards=None),
     Subcheck("binner", lambda: hist_cases("binner", ALL_FAM), check_hist, classify_hist,
-             quick=1800, thorough=90000),
+             quick=5400, thorough=90000),
     Subcheck("edges", lambda: hist_cases("histogram", ["grid", "intfloat", "ints"]), check_hist, classify_hist,
-             quick=1800, thorough=90000),
+             quick=5400, thorough=90000),
 ]
